@@ -9,6 +9,7 @@ require (
 	github.com/emitter-io/config v1.0.0
 	github.com/emitter-io/emitter v0.0.0
 	github.com/kelindar/binary v1.0.19
+	github.com/weaveworks/mesh v0.0.0-20191105120815-58dbcc3e8e63
 )
 
 require (
@@ -55,7 +56,6 @@ require (
 	github.com/tidwall/tinyqueue v0.1.1 // indirect
 	github.com/valyala/bytebufferpool v1.0.0 // indirect
 	github.com/valyala/fasthttp v1.58.0 // indirect
-	github.com/weaveworks/mesh v0.0.0-20191105120815-58dbcc3e8e63 // indirect
 	go.opencensus.io v0.24.0 // indirect
 	golang.org/x/crypto v0.33.0 // indirect
 	golang.org/x/net v0.35.0 // indirect
